@@ -818,7 +818,18 @@ class Scores:
         right = self._find_root(f, 0.0, max_eer, find_first=False)
 
         eer = (left + right) / 2
-        threshold = self.threshold_at_fpr(eer)
+        # At the crossing both inverse curves give the same threshold, but only up to the
+        # resolution with which a rate determines a threshold on each of them. We read
+        # the threshold from the curve that is flatter around the crossing.
+        delta = 1e-9
+        steepness = [
+            np.abs(g(min(eer + delta, max_eer)) - g(max(eer - delta, 0.0)))
+            for g in (self.threshold_at_fpr, self.threshold_at_fnr)
+        ]
+        if steepness[1] < steepness[0]:
+            threshold = self.threshold_at_fnr(eer)
+        else:
+            threshold = self.threshold_at_fpr(eer)
 
         return threshold, eer
 
